@@ -87,6 +87,40 @@ def replay(model, obligation):
                     fails.append('checksumming=%s on v%d' % (c._is_checksumming_enabled, pv))
                 if any(s[2] is not None or s[3] for s in c.sent[:2]):
                     fails.append('OPTIONS/STARTUP sent compressed or checksummed')
+        elif '/factory/' in obligation:
+            import threading
+            for state in ('ready', 'defunct', 'closed-by-the-peer-mid-handshake', 'silent'):
+                err = cmod.ConnectionShutdown('closed by the peer during the handshake')
+
+                class K(cmod.Connection):
+                    def __init__(self, endpoint, *a, **k):
+                        self.endpoint, self.connected_event = endpoint, threading.Event()
+                        self.is_defunct = self.is_closed = self.is_unsupported_proto_version = False
+                        self.last_error, self.protocol_version, self.closed = None, 4, 0
+                        if state == 'ready':
+                            self.connected_event.set()
+                        elif state == 'defunct':
+                            self.is_defunct, self.last_error = True, err
+                            self.connected_event.set()
+                        elif state.startswith('closed'):
+                            # Connection.close() on a clean EOF: closed, not defunct, the reason recorded, waiters released
+                            self.is_closed, self.last_error = True, err
+                            self.connected_event.set()
+
+                    def close(self):
+                        self.closed += 1
+                try:
+                    got = ('ok', K.factory('ep', 0.05))
+                except Exception as e:
+                    got = ('exc', e)
+                if state == 'ready':
+                    ok = got[0] == 'ok' and isinstance(got[1], K)
+                elif state == 'silent':
+                    ok = got[0] == 'exc' and isinstance(got[1], cmod.OperationTimedOut if hasattr(cmod, 'OperationTimedOut') else Exception)
+                else:
+                    ok = got[0] == 'exc' and got[1] is err
+                if not ok:
+                    fails.append('handshake ended %s: Connection.factory %s' % (state, 'handed out the connection as ready' if got[0] == 'ok' else 'raised %r' % (got[1],)))
         elif 'handshake-state-machine' in obligation:
             cmod.locally_supported_compressions = OrderedDict(LOCALS['lz4+snappy'])
             auth = ['none', 'credentials', 'sasl'][model.get('choice_authenticator', 0)]
